@@ -14,7 +14,7 @@ RULE = ('mosromgr.cli.main(argv) in-process with captured stdout/stderr. detect 
         'a pool {roCreate, a completed running order, roStoryAppend, compact roReplace, roDelete, roElementAction with an '
         'unrecognised operation, non-XML file, unknown XML, missing path, directory}, plus one canonical document of each of the 25 classes (compact and pretty) before / after another file; merge: every subset of a 5-file pool '
         '{roCreate, roStoryAppend, failing roStoryReplace, roStoryMove, roDelete} in two supply orders x {-i} x {-n} x '
-        '{-o file, stdout}, plus a missing file in the list, plus no -f at all for the three commands. Oracle: per listed '
+        '{-o file, stdout}, plus a missing file in the list, plus no -f at all for the three commands; the same commands over a fake S3 bucket (-b with -p / -p -s / -k / nothing). Oracle: per listed '
         'file, in order, "<name>: <Class>[ (completed)]" on stdout (class from MosFile.from_file run by the harness) or the '
         'name marked on stderr; files after a bad one are still reported; inspect returns normally on classifiable files; '
         'merge output (stdout or file bytes) equals str(mc) computed by the harness with the same flags; return value '
@@ -94,12 +94,17 @@ def worker(ns, items, res, opts):
     prop = opts['prop']
     from mosromgr.cli import main       # only here: importing the CLI installs a global 'ignore' warning filter
     d = tempfile.mkdtemp(prefix='mosmc-c19-')
+    store = coll.FakeS3()
+    store.install(ns)
     try:
         files = make_pool(ns, d)
         cls = {n: classify(ns, p) for n, p in files.items()}
         for it in items:
             res.transitions += 1
             cmd = it[0]
+            if cmd == 's3':
+                s3_case(ns, main, files, cls, store, it, res, prop, d)
+                continue
             if cmd in ('detect', 'inspect'):
                 names = it[1]
                 argv = [cmd] + (['-f'] + [files[n] for n in names] if names is not None else [])
@@ -195,6 +200,83 @@ def worker(ns, items, res, opts):
         shutil.rmtree(d, ignore_errors=True)
 
 
+def s3_case(ns, main, files, cls, store, it, res, prop, d):
+    """The same commands over a (fake) bucket: -b/-p/-s/-k."""
+    _, sub, names, opts_ = it
+    res.nontrivial += 1
+    bucket = 'bkt'
+    store.objects = {}
+    keys = []
+    for k, n in enumerate(names):
+        if os.path.isfile(files[n]):
+            key = f'pre/{899 - k:03d}-{n}'
+            store.put(bucket, key, open(files[n], 'rb').read())
+            keys.append((key, n))
+    store.put(bucket, 'pre/readme.txt', 'not a mos file')
+    store.put(bucket, 'other/zzz.mos.xml', open(files['append.mos.xml'], 'rb').read())
+    store.pages[bucket] = [[k for k, _ in keys[:2]] + ['pre/readme.txt'], [k for k, _ in keys[2:]] + ['other/zzz.mos.xml']]
+    argv = [sub]
+    mode = opts_.get('mode')
+    if mode == 'prefix':
+        argv += ['-b', bucket, '-p', 'pre/']
+    elif mode == 'prefix+suffix':
+        argv += ['-b', bucket, '-p', 'pre/', '-s', '.xml']
+    elif mode == 'key':
+        argv += ['-b', bucket, '-k', keys[0][0]]
+    elif mode == 'bucket-only':
+        argv += ['-b', bucket]
+    if sub == 'merge':
+        if opts_.get('i'):
+            argv.append('-i')
+        if opts_.get('n'):
+            argv.append('-n')
+    rv, out, err, exc = invoke(main, argv)
+    res.by_class[f's3:{sub}:{mode}'] += 1
+    res.by_outcome[f's3:{sub}:rv={rv}'] += 1
+    if exc is not None and exc != 'SystemExit':
+        explore.add_simple_finding(res, prop, f's3:{sub}:{mode}:escaped:{exc.split(":")[1]}', f'{argv}: {exc}', argv=argv)
+        return
+    if sub in ('detect', 'inspect'):
+        if mode == 'bucket-only':
+            if rv != 2 or not err.strip():
+                explore.add_simple_finding(res, prop, f's3:{sub}:bucket-only:rv={rv}', f'{argv}: return {rv!r}, expected 2 with a message', argv=argv)
+            return
+        listed = keys[:1] if mode == 'key' else keys
+        got = []
+        for line in out.splitlines():
+            for key, n in keys:
+                if line.startswith(key + ': '):
+                    got.append((key, line[len(key) + 2:]))
+        want = [(key, cls[n]) for key, n in listed if cls[n] is not None]
+        if got != want:
+            explore.add_simple_finding(res, prop, f's3:{sub}:{mode}:report-differs', f'{argv}: reported {got}, expected {want}; stderr {err[:100]!r}', argv=argv)
+        elif [key for key, n in listed if cls[n] is None and key not in err]:
+            explore.add_simple_finding(res, prop, f's3:{sub}:{mode}:bad-key-not-marked', f'{argv}: bad objects not marked on stderr {err[:100]!r}', argv=argv)
+        return
+    # merge
+    want_text = want_err = None
+    if mode == 'bucket-only' and False:
+        pass
+    try:
+        kw = {'suffix': '.xml'} if mode == 'prefix+suffix' else {}
+        if mode == 'bucket-only':
+            mc = ns.mc.MosCollection.from_s3(bucket_name=bucket, prefix=None, allow_incomplete=bool(opts_.get('i')))
+        else:
+            mc = ns.mc.MosCollection.from_s3(bucket_name=bucket, prefix='pre/', allow_incomplete=bool(opts_.get('i')), **kw)
+        with warnings.catch_warnings():
+            warnings.simplefilter('ignore')
+            mc.merge(strict=not opts_.get('n'))
+        want_text = str(mc)
+    except Exception as e:  # noqa
+        want_err = type(e).__name__
+    if want_err is not None:
+        if rv != 2 or not err.strip():
+            explore.add_simple_finding(res, prop, f's3:merge:{mode}:error-status:{want_err}:rv={rv}',
+                                       f'{argv}: library raises {want_err}; CLI returned {rv!r} stderr {err[:100]!r}', argv=argv)
+    elif rv not in (None, 0) or out.rstrip('\n') != want_text:
+        explore.add_simple_finding(res, prop, f's3:merge:{mode}:differs:rv={rv}', f'{argv}: output differs from the library result (return {rv!r}; stderr {err[:100]!r})', argv=argv)
+
+
 def items_for(tier):
     items = []
     L = 3 if tier == 'thorough' else 2
@@ -224,6 +306,16 @@ def items_for(tier):
                     for ns_ in (False, True):
                         for o in (False, True):
                             items.append(('merge', order if n else None, i, ns_, o))
+    # the same commands over a bucket
+    for names in (('ro.mos.xml', 'append.mos.xml', 'rodelete.mos.xml'), ('ro.mos.xml', 'not-xml.mos.xml', 'm-move.mos.xml', 'rodelete.mos.xml'),
+                  ('ro.mos.xml', 'm-fail.mos.xml', 'append.mos.xml'), ('unknown.mos.xml', 'completed.mos.xml', 'roreplace-compact.mos.xml')):
+        for mode in ('prefix', 'prefix+suffix', 'key', 'bucket-only'):
+            for sub in ('detect', 'inspect'):
+                items.append(('s3', sub, names, {'mode': mode}))
+            if mode in ('prefix', 'prefix+suffix'):
+                for i in (False, True):
+                    for n_ in (False, True):
+                        items.append(('s3', 'merge', names, {'mode': mode, 'i': i, 'n': n_}))
     for i in (False, True):
         items.append(('merge', ('ro.mos.xml', 'missing.mos.xml', 'rodelete.mos.xml'), i, False, False))
         items.append(('merge', ('ro.mos.xml', 'not-xml.mos.xml', 'rodelete.mos.xml'), i, True, True))
@@ -249,4 +341,4 @@ def run(tier):
         'C19', tier, parts, rule=RULE, vacuity=vacuity,
         assumptions=['SystemExit raised by a command body counts as its exit status',
                      'the installed console-script wrapper and real child-process exit codes are not exercised (main() is called in-process)',
-                     'S3 options of the CLI are not exercised'])
+                     'the S3 options (-b/-p/-s/-k) run against the in-memory fake bucket of C18'])
